@@ -136,6 +136,132 @@ theorem boundsheet_unknown_state_rejected (off dt : Nat) (us : List Nat) (wide :
   rw [this]
   rfl
 
+/-! ## xlsx: `xl/workbook.xml` (event level; quick-xml trusted) -/
+
+/-- **xlsx: sheets, defined names and the date flag in document order.** For every element prefix (`q` with
+    `local_name (q s) = s`), every spelling of the relationship-id attribute with a prefix and local name `id`,
+    every list of declared sheets whose relationship resolves to a part in a known folder, every list of
+    defined names (text possibly split over several Text events) and every `workbookPr` attribute list:
+    the reader reports exactly the declared sheets in order (name, kind from the folder, visibility from
+    `state`, default visible), the defined names in order with their concatenated text, and
+    `date1904 ∈ {"1","true"}`. -/
+theorem sheets_in_order_xlsx (rels : List (String × String)) (q : String → String) (hq : QOk q)
+    (ridKey : String) (hk : ridKeyOk ridKey) (pr : Option (List (String × String)))
+    (sheets : List XSheet) (hs : ∀ s ∈ sheets, s.ok rels) (names : List (String × List String)) :
+    readWorkbookXlsx rels (workbookEvents q ridKey pr sheets names) =
+      .ok (⟨sheets.map (fun s => ⟨s.name, s.kind, s.vis⟩), names.map dnValue, (pr.map date1904Attr).getD false⟩,
+           sheets.map (fun s => xlsxPath s.target.toList)) := by
+  unfold readWorkbookXlsx xlsxLoop workbookEvents
+  change xlsxFinish (xlsxLoopWith prMatchFixed rels _ _) = _
+  have e1 : ∀ (rest : List Ev) (st : XlsxSt), st.cur = none →
+      xlsxLoopWith prMatchFixed rels (.start (q "workbook") [] :: rest) st = xlsxLoopWith prMatchFixed rels rest st :=
+    fun rest st hc => loop_start_skip _ _ _ _ _ _ hc (by rw [hq]; decide) (by rw [pm_q q hq]; decide) (by rw [hq]; decide)
+  have e2 : ∀ (rest : List Ev) (st : XlsxSt), st.cur = none →
+      xlsxLoopWith prMatchFixed rels (.start (q "sheets") [] :: rest) st = xlsxLoopWith prMatchFixed rels rest st :=
+    fun rest st hc => loop_start_skip _ _ _ _ _ _ hc (by rw [hq]; decide) (by rw [pm_q q hq]; decide) (by rw [hq]; decide)
+  have e3 : ∀ (rest : List Ev) (st : XlsxSt), st.cur = none →
+      xlsxLoopWith prMatchFixed rels (.start (q "definedNames") [] :: rest) st = xlsxLoopWith prMatchFixed rels rest st :=
+    fun rest st hc => loop_start_skip _ _ _ _ _ _ hc (by rw [hq]; decide) (by rw [pm_q q hq]; decide) (by rw [hq]; decide)
+  have e4 : ∀ (n : String), n ≠ "workbook" → ∀ (rest : List Ev) (st : XlsxSt), st.cur = none →
+      xlsxLoopWith prMatchFixed rels (.end_ (q n) :: rest) st = xlsxLoopWith prMatchFixed rels rest st :=
+    fun n hn rest st hc => loop_end_skip _ _ _ _ _ hc (by rw [hq]; exact hn)
+  rw [e1 _ _ rfl]
+  -- the optional <workbookPr/>
+  have hpr : ∀ (rest : List Ev),
+      xlsxLoopWith prMatchFixed rels
+        (prEvents q pr ++ rest) ⟨[], [], false, none⟩ =
+      xlsxLoopWith prMatchFixed rels rest ⟨[], [], (pr.map date1904Attr).getD false, none⟩ := by
+    intro rest
+    cases pr with
+    | none => rfl
+    | some attrs =>
+      simp only [prEvents, List.cons_append, List.nil_append, Option.map_some, Option.getD_some]
+      rw [loop_start_pr _ _ _ _ _ _ _ _ (by rw [hq]; decide) (by rw [pm_q q hq]; decide)]
+      rw [e4 "workbookPr" (by decide) _ _ rfl]
+  have h0 : ({} : XlsxSt) = ⟨[], [], false, none⟩ := rfl
+  rw [h0, hpr, e2 _ _ rfl, loop_sheets _ _ q hq ridKey hk sheets hs, e4 "sheets" (by decide) _ _ rfl, e3 _ _ rfl,
+    loop_names _ _ q hq (by rw [pm_q q hq]; decide), e4 "definedNames" (by decide) _ _ rfl,
+    loop_end_workbook _ _ _ _ _ rfl (hq "workbook")]
+  simp [xlsxFinish, xsheetDecoded, List.map_map, Function.comp_def]
+
+/-- the hypotheses of `sheets_in_order_xlsx` are satisfiable: prefix `x:`, `rel:id`, a hidden chart sheet and a
+    very hidden macro sheet (kind known after fix D27), a defined name with XML specials split in two events -/
+example :
+    readWorkbookXlsx [("rId1", "chartsheets/sheet1.xml"), ("rId2", "/xl/macrosheets/sheet2.xml")]
+      (workbookEvents (fun s => "x:" ++ s) "rel:id" (some [("date1904", "true")])
+        [⟨"A & <B>", "1", .hidden, true, "rId1", "chartsheets/sheet1.xml", .chartSheet⟩,
+         ⟨"😀", "2", .veryHidden, true, "rId2", "/xl/macrosheets/sheet2.xml", .macroSheet⟩]
+        [("n", ["1<2", "&\"x\""])]) =
+      .ok (⟨[⟨"A & <B>", .chartSheet, .hidden⟩, ⟨"😀", .macroSheet, .veryHidden⟩], [("n", "1<2&\"x\"")], true⟩,
+           ["xl/chartsheets/sheet1.xml".toList, "xl/macrosheets/sheet2.xml".toList]) := by
+  decide
+
+theorem defined_names_in_order_xlsx (rels : List (String × String)) (q : String → String) (hq : QOk q)
+    (ridKey : String) (hk : ridKeyOk ridKey) (pr : Option (List (String × String)))
+    (sheets : List XSheet) (hs : ∀ s ∈ sheets, s.ok rels) (names : List (String × List String)) :
+    (readWorkbookXlsx rels (workbookEvents q ridKey pr sheets names)).isOk = true ∧
+    ∀ wb p, readWorkbookXlsx rels (workbookEvents q ridKey pr sheets names) = .ok (wb, p) → wb.names = names.map dnValue := by
+  rw [sheets_in_order_xlsx rels q hq ridKey hk pr sheets hs names]
+  refine ⟨rfl, ?_⟩
+  intro wb p h
+  cases h
+  rfl
+
+/-- **xlsx: the date-system flag** is `true` exactly for `date1904="1"` / `"true"`, whatever prefix the element has (after fix D22) -/
+theorem date1904_flag_xlsx (rels : List (String × String)) (q : String → String) (hq : QOk q)
+    (ridKey : String) (hk : ridKeyOk ridKey) (v : String)
+    (sheets : List XSheet) (hs : ∀ s ∈ sheets, s.ok rels) (names : List (String × List String)) :
+    ∀ wb p, readWorkbookXlsx rels (workbookEvents q ridKey (some [("date1904", v)]) sheets names) = .ok (wb, p) →
+      wb.is1904 = (v = "1" || v = "true") := by
+  rw [sheets_in_order_xlsx rels q hq ridKey hk _ sheets hs names]
+  intro wb p h
+  cases h
+  simp [date1904Attr, List.lookup]
+
+/-! ## ods: `content.xml` (event level; quick-xml trusted) -/
+
+/-- **ods: sheets and named ranges in document order.** -/
+theorem sheets_in_order_ods (styles : List (String × Option Bool)) (tables : List OTable) (ht : ∀ t ∈ tables, t.ok)
+    (names : List (String × String)) :
+    parseContentOds (contentEvents styles tables names) =
+      .ok ⟨tables.map (fun t => ⟨t.name, .workSheet, tableVis styles t⟩), names, false⟩ := by
+  unfold parseContentOds contentEvents
+  have h0 : ({} : OdsSt) = ⟨[], [], [], none, .top⟩ := rfl
+  rw [h0]
+  rw [ods_top_start_skip _ _ _ _ _ _ _ (by decide) (by decide) (by decide) (by decide)]
+  rw [ods_top_start_skip _ _ _ _ _ _ _ (by decide) (by decide) (by decide) (by decide)]
+  obtain ⟨sn', hst⟩ := ods_styles styles
+    (Ev.end_ "office:automatic-styles" :: Ev.start "office:body" [] :: Ev.start "office:spreadsheet" [] ::
+      (tables.flatMap tableEvents ++ (Ev.start "table:named-expressions" [] :: (names.flatMap namedRangeEvents ++
+        [Ev.end_ "table:named-expressions", Ev.end_ "office:spreadsheet", Ev.end_ "office:body", Ev.end_ "office:document-content"]))))
+    [] [] [] none
+  rw [hst, List.append_nil, ods_top_end]
+  rw [ods_top_start_skip _ _ _ _ _ _ _ (by decide) (by decide) (by decide) (by decide)]
+  rw [ods_top_start_skip _ _ _ _ _ _ _ (by decide) (by decide) (by decide) (by decide)]
+  rw [ods_tables styles tables ht]
+  -- <table:named-expressions>
+  rw [odsLoop]
+  have h1 : ("table:named-expressions" : String) ≠ "style:style" := by decide
+  have h2 : ("table:named-expressions" : String) ≠ "style:table-properties" := by decide
+  have h3 : ("table:named-expressions" : String) ≠ "table:table" := by decide
+  simp only [h1, h2, h3, if_false, and_false, if_true]
+  rw [ods_named]
+  rw [odsLoop]
+  have h4 : isNamedElem "table:named-expressions" = false := by decide
+  simp only [h4, if_true, Bool.false_eq_true, if_false, List.nil_append]
+  rw [ods_top_end, ods_top_end, ods_top_end]
+  simp [odsLoop]
+
+/-- satisfiable: two tables sharing a hidden style, one without style, a redefined style name (the later
+    definition wins), named ranges with XML specials -/
+example :
+    parseContentOds (contentEvents [("ta1", some false), ("ta2", some false), ("ta2", none)]
+        [⟨"A & <B>", some "ta1", [.start "table:table-row" [], .end_ "table:table-row"]⟩, ⟨"b", some "ta2", []⟩, ⟨"c", none, []⟩, ⟨"d", some "nope", []⟩]
+        [("n1", "$'A & <B>'.$A$1"), ("n2", "")]) =
+      .ok ⟨[⟨"A & <B>", .workSheet, .hidden⟩, ⟨"b", .workSheet, .visible⟩, ⟨"c", .workSheet, .visible⟩, ⟨"d", .workSheet, .visible⟩],
+           [("n1", "$'A & <B>'.$A$1"), ("n2", "")], false⟩ := by
+  decide
+
 /-! ## xlsx: the date-system flag under a namespace prefix (ledger D22) -/
 
 def d22Events : List Ev :=
